@@ -67,6 +67,10 @@ class UniqueChunked(ArrayExpr):
     def _name(self):
         return f"unique-chunk-{self.deterministic_token}"
 
+    def _requires_grid_preservation(self, dependency):
+        # ``_layer`` pairs the blocks of several inputs by position
+        return True
+
     def _layer(self):
         dsk = {}
         for i in range(len(self.x.chunks[0])):
